@@ -28,7 +28,7 @@ def named_array(E, items, name):
 
 
 FORMS_1D = ["list", "tuple", "generator", "iterator", "nested_list", "array2d", "range_like", "named_list"]
-FORMS_ND = ["list_of_rows", "tuple_of_rows", "list_of_tuples", "h2_lists", "h2_tuple_array", "h3_lists", "h3_arrays", "fill_n_columns"]
+FORMS_ND = ["list_of_rows", "tuple_of_rows", "list_of_tuples", "h2_lists", "h2_tuple_array", "h2_generators", "h2_iterator_map", "h3_lists", "h3_arrays", "fill_n_columns"]
 
 
 @register
@@ -172,7 +172,7 @@ class C17GenericND(Harness):
         for form in FORMS_ND:
             for wk in ("none", "list"):
                 yield f"cnd-{form}-w{wk}", dict(form=form, weights=wk, bad=None)
-        for bad in ("one_dim", "unequal_columns", "weights_len", "ragged_rows", "axis_names_len", "h3_four_columns", "h2_dim_three_columns", "h_dim_too_small", "h2_second_none", "h2_first_none"):
+        for bad in ("one_dim", "unequal_columns", "weights_len", "ragged_rows", "axis_names_len", "h3_four_columns", "h2_dim_three_columns", "h_dim_too_small", "h2_second_none", "h2_first_none", "h2_scalars"):
             yield f"cnd-bad-{bad}", dict(form="list_of_rows", weights="none", bad=bad)
         yield "cnd-named-columns", dict(form="h2_named", weights="none", bad=None)
         for form in ("h3_named", "h3_lists_explicit_names", "h2_named_explicit_names", "h2_lists_explicit_names", "rows_explicit_names"):
@@ -202,6 +202,8 @@ class C17GenericND(Harness):
                 r = E.attempt(fac.h2, [rows[0][0], rows[1][0]], [rows[0][1]], bins)
             elif bad == "weights_len":
                 r = E.attempt(fac.h, arr, bins, weights=[1, 2, 3])
+            elif bad == "h2_scalars":
+                r = E.attempt(fac.h2, rows[0][0], rows[0][1], bins)
             elif bad == "h2_second_none":
                 r = E.attempt(fac.h2, [rows[0][0], rows[1][0]], None, bins)
             elif bad == "h2_first_none":
@@ -228,6 +230,10 @@ class C17GenericND(Harness):
             got = E.attempt(fac.h, [tuple(r) for r in rows], bins, **kw)
         elif f == "h2_lists":
             got = E.attempt(fac.h2, cols[0], cols[1], bins, **kw)
+        elif f == "h2_generators":
+            got = E.attempt(fac.h2, (v for v in cols[0]), (v for v in cols[1]), bins, **kw)
+        elif f == "h2_iterator_map":
+            got = E.attempt(fac.h2, iter(list(cols[0])), map(lambda v: v, cols[1]), bins, **kw)
         elif f == "h2_tuple_array":
             got = E.attempt(fac.h2, tuple(cols[0]), np.asarray(cols[1], dtype=float), bins, **kw)
         elif f == "h2_named":
